@@ -104,6 +104,46 @@ fn rename_values(t: &str) -> String {
     out
 }
 
+/// Does the printed IR use an SSA value (`v<digits>v<digits>`) textually before the line defining it?
+/// (Valid when the defining block dominates the use but is printed later, e.g. a loop's break block.)
+fn textual_forward_ref(t: &str) -> bool {
+    fn is_val(tok: &str) -> bool {
+        let b = tok.as_bytes();
+        if b.len() < 4 || b[0] != b'v' {
+            return false;
+        }
+        let rest = &tok[1..];
+        match rest.find('v') {
+            Some(i) if i > 0 && i + 1 < rest.len() => rest[..i].bytes().all(|c| c.is_ascii_digit()) && rest[i + 1..].bytes().all(|c| c.is_ascii_digit()),
+            _ => false,
+        }
+    }
+    let mut defined: std::collections::HashSet<&str> = std::collections::HashSet::new();
+    for line in t.lines() {
+        let l = line.trim();
+        if l.contains(" fn ") || l.starts_with("fn ") {
+            defined.clear();
+        }
+        let toks: Vec<&str> = l.split(|c: char| !(c.is_ascii_alphanumeric() || c == '_')).filter(|x| !x.is_empty()).collect();
+        let is_header = l.ends_with(':') || l.ends_with('{');
+        let def = if !is_header && l.contains(" = ") { toks.first().copied().filter(|x| is_val(x)) } else { None };
+        for (i, tok) in toks.iter().enumerate() {
+            if !is_val(tok) {
+                continue;
+            }
+            if is_header {
+                defined.insert(tok);
+            } else if !(i == 0 && def.is_some()) && !defined.contains(tok) {
+                return true;
+            }
+        }
+        if let Some(d) = def {
+            defined.insert(d);
+        }
+    }
+    false
+}
+
 fn word_bytes(w: u64) -> Vec<u8> {
     w.to_be_bytes().to_vec()
 }
@@ -321,8 +361,8 @@ fn main() {
                         let v = std::panic::catch_unwind(std::panic::AssertUnwindSafe(|| ir2.verify()));
                         ("ok".to_string(), t2 == text, match v { Ok(Ok(())) => "ok".to_string(), Ok(Err(e)) => format!("{e}"), Err(_) => "panic".to_string() })
                     }
-                    Ok(Err(e)) => (format!("{e}"), false, "n/a".into()),
-                    Err(_) => ("panic".into(), false, "n/a".into()),
+                    Ok(Err(e)) => (if textual_forward_ref(&text) { "forward-ref".into() } else { format!("{e}") }, false, "n/a".into()),
+                    Err(_) => (if textual_forward_ref(&text) { "forward-ref".into() } else { "panic".into() }, false, "n/a".into()),
                 };
                 if let Some(d) = &dump {
                     let _ = std::fs::write(d.join(format!("{n:03}-{stage}-{}.ir", pass.replace('/', "_"))), &text);
